@@ -946,6 +946,10 @@ fn generate_new(seed: u64, thorough: bool, em: &mut Emitter) {
                 for entry in 0..3u64 {
                     for keyed in [false, true] {
                         for stage in 0..3u64 {
+                            // the stamped stream does not depend on (size, off): once per anchor
+                            if stage == 0 && !(size == 1 && off == 0) {
+                                continue;
+                            }
                             let pick = (anchor >> 3) as usize + size as usize + off as usize + entry as usize + stage as usize;
                             let runs: Vec<(i64, u64)> = match pick % 4 {
                                 0 => vec![(0, 0), (3, 0)],
@@ -1308,4 +1312,6 @@ fn generate(seed: u64, tier: Tier, em: &mut Emitter) {
 
 fn main() {
     drive(&generate, &run);
+    // the per-process scratch root of the checkpointing runs
+    let _ = std::fs::remove_dir_all(format!("/verif/run/C13/scratch-{}", std::process::id()));
 }
